@@ -26,6 +26,57 @@ def packet_kind(fn, send_cs):
     return kinds.pop() if len(kinds) == 1 else "other"
 
 
+def send_all_summary(P, g):
+    """If local function g sends one packet of one kind to every element of a Vec-of-senders
+    parameter (complete loop, every iteration, only early exit = SendError returning Err, Ok
+    only after exhaustion) return (param index, kind), else None."""
+    if g.kind == "closure" or g.body.get("in_test"):
+        return None
+    sends = g.calls_to(SEND)
+    if len(sends) != 1:
+        return None
+    s = sends[0]
+    lps = [lp for lp in g.loops() if s.bb in lp["body"]]
+    if len(lps) != 1:
+        return None
+    lp = lps[0]
+    if not (lp["iter"] and all(o[0][0] == "param" and all(st[0] in ("iter", "adapt") for st in o[1:]) for o in lp["iter"])):
+        return None
+    k = next(iter(lp["iter"]))[0][1]
+    so = g.origins_of_operand(s.args[0])
+    if not (so and all(any(o[:len(e)] == e for e in lp["elem"]) for o in so)):
+        return None
+    if not g.every_iteration_calls(lp, [s.bb]):
+        return None
+    err_edges = g.edges_of_call_variant(s, "Err")
+    allowed = g.reach([d for (_, d) in err_edges])
+    for (a, b) in g.loop_exits(lp):
+        if (a, b) not in err_edges and a not in allowed:
+            return None
+    # Ok only after exhaustion; the SendError arm returns Err
+    for (bb, idx, rv, pl) in g.constructs("std::result::Result", "Ok"):
+        if pl["local"] == 0 and not g.dominated_by_edges(bb, {lp["none"]}):
+            return None
+    after_err = g.reach([d for (_, d) in err_edges])
+    if any(pl["local"] == 0 and bb in after_err and g.dominated_by_edges(bb, err_edges) for (bb, idx, rv, pl) in g.constructs("std::result::Result", "Ok")):
+        return None
+    pk = packet_kind(g, s)
+    if pk not in ("cancel", "ticket"):
+        return None
+    return (k, pk)
+
+
+def helper_sends(P, fn):
+    """Calls in `fn` to send-all helpers: [(callsite, param index, kind)]"""
+    out = []
+    for c in fn.calls:
+        for t in P.local_targets(c):
+            summ = send_all_summary(P, P.fns[t])
+            if summ is not None:
+                out.append((c, summ[0], summ[1]))
+    return out
+
+
 def send_loops(fn):
     """Loops of `fn` containing a Sender::send.  [(loop, send callsite)]"""
     out = []
@@ -108,6 +159,25 @@ def c04_r3(ctx):
                 ctx.viol(key + ("mismatch",), "closure returns %s after sending %s packets" % (sorted(kinds), pk), s.where)
             else:
                 ctx.ok()
+        # send-all helpers called with the captured sender vector count as loops
+        for (hc, k, pk) in helper_sends(ctx.P, cl):
+            ctx.inst("send-all helper call in %s" % cl.id, hc.where)
+            ao = cl.origins_of_operand(hc.args[k - 1])
+            if not all(o[0] == ("param", 1) and o[1] == ("field", vec) and len(o) == 2 for o in ao):
+                ctx.viol((cl.id, "helper-other-vector", pk), "a send-all helper is not given the captured sender vector", hc.where)
+                continue
+            ok_e = cl.edges_of_call_variant(hc, "Ok")
+            er_e = cl.edges_of_call_variant(hc, "Err")
+            none_edges |= ok_e
+            senderr_edges |= er_e
+            after = cl.reach([d for (_, d) in ok_e])
+            rets = [(bb, idx, rv) for (bb, idx, rv, pl) in cl.constructs("std::result::Result") if bb in after and pl["local"] == 0 and not pl["proj"] and cl.dominated_by_edges(bb, ok_e)]
+            kinds = {rv["kind"]["variant"] for (_, _, rv) in rets}
+            want = {"ticket": {"Ok"}, "cancel": {"Err"}}[pk]
+            if kinds != want:
+                ctx.viol((cl.id, "send-loop", pk, "mismatch"), "closure returns %s after sending %s packets" % (sorted(kinds), pk), hc.where)
+            else:
+                ctx.ok()
         # every return goes through a loop exhaustion or a SendError arm
         r = cl.reach([0], avoid_edges=none_edges | senderr_edges)
         bad = [b for b in cl.return_blocks if b in r]
@@ -123,6 +193,12 @@ def c05_r1(ctx):
     R = Roles(ctx.P)
     leaf, node = R.build_closures()
     allowed = {leaf.id, node.id}
+    for cl in (leaf, node):
+        for (hc, k, pk) in helper_sends(ctx.P, cl):
+            for t in ctx.P.local_targets(hc):
+                # a send-all helper is an extension of the closures as long as only they call it
+                if all(c.fn.id in (leaf.id, node.id) for c in ctx.P.callers.get(t, []) if not c.fn.body.get("in_test")):
+                    allowed.add(t)
     for fn in ctx.P.fns.values():
         if fn.body.get("in_test"):
             continue
@@ -409,6 +485,15 @@ def c03_r3(ctx):
             if d.id in ctx.P.local_targets(c):
                 err_edges |= cl.edges_of_call_variant(c, "Err")
         payload = cl._call_origins(h, (("variant", "Ok"), ("field", 0), ("field", "file_state_vec")), frozenset())
+        for (hc, k, pk) in helper_sends(ctx.P, cl):
+            ctx.inst("%s helper call in %s" % (pk, cl.id), hc.where)
+            if pk == "cancel":
+                if cl.dominated_by_edges(hc.bb, err_edges):
+                    ctx.ok()
+                else:
+                    ctx.viol((cl.id, "cancel-on-success"), "dependents are cancelled on a path where nothing failed", hc.where)
+            else:
+                raise AnalysisError("idiom not recognised: hashes are announced through a helper function at %s" % hc.where)
         for s in cl.calls_to(SEND):
             pk = packet_kind(cl, s)
             ctx.inst("%s send in %s" % (pk, cl.id), s.where)
